@@ -216,6 +216,21 @@ def run_shard(spec, R):
                 return H(hsig.copy())
 
             ok, out = R.guarded("labelwise_wrapper", para)
+            if ok and len(hvals) > 1:
+                # requests that end early in between (a signal the models refuse; somebody looks at the first mask only):
+                # the next complete evaluation is right
+                try:
+                    H("no signal")
+                except Exception:
+                    pass
+                try:
+                    next(iter(H.masks))
+                except Exception:
+                    pass
+                ok_e, out_e = R.guarded("labelwise_wrapper", lambda: H(hsig.copy()))
+                if ok_e:
+                    R.check(np.array_equal(np.asarray(out_e), np.asarray(out)), "labelwise_wrapper", {**case, "what": "evaluation after requests that ended early"}, group=wlabel + "/after_early_exit")
+                    R.count("labelwise_wrapper_after_early_exit")
             if ok:
                 # integer-typed signals (counts) are signals like any other: same models, same regions
                 isig = rng.integers(0, 200, size=hshape).astype([np.uint8, np.uint16, np.int32][n % 3])
